@@ -814,7 +814,7 @@ def gen_value(rnd, t, mode, consts, ctx=None, nonzero=False):
                 return pint(v)
     if k == "leb":
         while True:
-            v = rnd.choice([0, 1, 63, 64, 127, 128, 300, 16383, 16384, 2 ** 35 + 5, 2 ** 70])
+            v = rnd.choice([0, 1, 63, 64, 127, 128, 300, 16383, 16384, 2 ** 35 + 5, 2 ** 62, 2 ** 62 + 1, 2 ** 63, 2 ** 64 - 1, 2 ** 70])
             if t["signed"] and rnd.random() < 0.5:
                 v = -v - rnd.randrange(2)
             if v or not nonzero:
